@@ -499,6 +499,24 @@ tree &push_value(tree &a, int const v, bool const back)
   return back ? a.push_back(mk(v)).get() : a.push_front(mk(v)).get();
 }
 
+// a well-formed line of a known node command whose node operands are well formed but do not all exist
+bool missing_node(std::vector<std::string> const &t)
+{
+  std::vector<std::string> sels;
+  if (!node_operands(t, sels))
+    return false;
+  for (std::string const &tok : sels)
+    if (!sel_well_formed(tok))
+      return false;
+  for (std::string const &tok : sels)
+  {
+    path p;
+    if (!sel(tok, p))
+      return true;
+  }
+  return false;
+}
+
 std::string handle_impl(std::vector<std::string> const &t)
 {
   bool const full = forest.size() >= max_roots;
@@ -518,6 +536,8 @@ std::string handle_impl(std::vector<std::string> const &t)
                      t[0] == "setv"))
     return "skip:copy";
 #endif
+  if (missing_node(t))
+    return "skip:nonode";
   if (t.size() == 2 && t[0] == "new")
   {
     if (!is_int(t[1]))
@@ -542,6 +562,8 @@ std::string handle_impl(std::vector<std::string> const &t)
       return "bad-op";
     if (forest.empty())
       return "skip:empty";
+    if (forest.size() == 1)
+      return "skip:last";
     std::size_t const r = static_cast<std::size_t>(std::stoull(t[1]) % forest.size());
     forest.erase(forest.begin() + static_cast<std::ptrdiff_t>(r));
     return done("ok r=" + std::to_string(r));
